@@ -44,6 +44,8 @@ LEVELS = ["debug", "info", "warning", "error", "critical"]
 def enc(v):
     if isinstance(v, bytes):
         return {"$bytes": base64.b64encode(v).decode()}
+    if isinstance(v, tuple):
+        return {"$tuple": [enc(x) for x in v]}
     if isinstance(v, list):
         return [enc(x) for x in v]
     if isinstance(v, dict):
@@ -59,6 +61,8 @@ def dec(v, tmp=None):
             (k, x), = v.items()
             if k == "$bytes":
                 return base64.b64decode(x)
+            if k == "$tuple":
+                return tuple(dec(i, tmp) for i in x)
             if k == "$tmp":
                 return os.path.join(tmp, x) if tmp else v
             if k == "$challenge":
@@ -215,6 +219,26 @@ INPLACE = [
     ("dict<str,list<int>>", {"t": "dict", "kf": _STR, "vf": {"t": "list", "item": _INT}}, {"k": [1]}, None,
      [[["k"], "append", [9]], [["k"], "clear", []]], [{"a": [2]}] * 3, {"a": ["x"]}),
     ("dict<str,any>", {"t": "dict", "kf": _STR}, {"k": [1]}, None, [[["k"], "append", [9]], [[], "setitem", ["zz", {"n": 1}]]], [{"a": [2]}] * 3, [1]),
+]
+
+
+# EMPTY / FALSY constant defaults: (name, field spec, constant default, in-place mutations, [assigned, stored, basic], rejected)
+EMPTY = [
+    ("dict{}", {"t": "dict"}, {}, [[[], "setitem", ["k", 5]], [[], "update", [{"j": 1}]]], [{"a": 2}] * 3, [1]),
+    ("dict<str,int>{}", {"t": "dict", "kf": _STR, "vf": _INT}, {}, [[[], "setitem", ["k", 5]], [[], "update", [{"j": 1}]]],
+     [{"a": 2}] * 3, {"a": "x"}),
+    ("dict<str,list>{}", {"t": "dict", "kf": _STR, "vf": {"t": "list"}}, {}, [[[], "setitem", ["k", [1]]], [[], "setdefault", ["j", [2]]]],
+     [{"a": [2]}] * 3, {"a": 5}),
+    ("list[]", {"t": "list"}, [], [[[], "append", [5]], [[], "extend", [[1, {"x": 1}]]]], [[2, 3]] * 3, "abc"),
+    ("list<int>[]", {"t": "list", "item": _INT}, [], [[[], "append", [5]], [[], "insert", [0, 7]]], [[3]] * 3, [1, "x"]),
+    ("list<dict>[]", {"t": "list", "item": {"t": "dict"}}, [], [[[], "append", [{"a": 1}]], [[], "extend", [[{"b": 2}]]]], [[{"c": 3}]] * 3, [5]),
+    ("list<schema>[]", {"t": "list", "item": ITEM}, [], [[[], "append", [{"q": 4}]]], [[{"q": 2, "r": "z"}]] * 3, [{"q": "x"}]),
+    ("list()", {"t": "list"}, (), [], [[2, 3]] * 3, "abc"),
+    ("list<int>()", {"t": "list", "item": _INT}, (), [], [[3]] * 3, [1, "x"]),
+    ("int:0", {"t": "int"}, 0, [], [5] * 3, "x"),
+    ("float:0.0", {"t": "float"}, 0.0, [], [2.5] * 3, "x"),
+    ("string:''", {"t": "string"}, "", [], ["v"] * 3, 5),
+    ("bool:False", {"t": "bool"}, False, [], [True] * 3, "maybe"),
 ]
 
 
@@ -392,6 +416,8 @@ OBLIGATION = {
     "ctor": "core:Config.__init__/post:C12.keywords-user-defined-rest-default",
     "mut": "core:Config._default_value_keys/frame:C12.inplace-mutation-is-not-an-assignment",
 }
+_OPNAME = {None: "initial", "set": "set", "bad": "rejected-set", "load_tree": "load_tree", "loads": "loads",
+           "reset": "reset", "ctor": "fresh", "mut": "mutate"}
 
 
 def _doc(bt, op):
@@ -508,6 +534,12 @@ def run_sequence(bt, top, ops):
             return "fail", ("value:" + _aspect(ops, path), "%s = %s, expected %s" % (path, show(value), show(ent["val"])))
     if frame:
         return "fail", ("frame", frame)
+    for path in top.get("check_default") or ():
+        # the declared constant default itself (field.default) is what it was declared to be
+        declared = dec(model.specs[path]["default"]["const"])
+        now = bt.schema[path].default
+        if not strict_eq(plain(now), declared):
+            return "fail", ("field-default", "field.default of %s is %s, declared %s" % (path, show(now), show(declared)))
     return "ok", None
 
 
@@ -562,9 +594,7 @@ def inplace_alphabet(model, tpath, muts, ok, bad):
     par = tpath.rpartition(".")[0]
     wpath = (par + "." if par else "") + "w"
     tree = nest(tpath, ok[2])
-    return [
-        {"op": "mut", "path": tpath, "nav": muts[0][0], "meth": muts[0][1], "args": enc(muts[0][2])},
-        {"op": "mut", "path": tpath, "nav": muts[1][0], "meth": muts[1][1], "args": enc(muts[1][2])},
+    return [{"op": "mut", "path": tpath, "nav": m[0], "meth": m[1], "args": enc(m[2])} for m in muts] + [
         {"op": "reset", "path": tpath},
         {"op": "ctor", "kw": {}, "effects": []},
         {"op": "set", "path": tpath, "value": enc(ok[0]), "effects": [{"path": tpath, "stored": enc(ok[1])}]},
@@ -665,9 +695,18 @@ def _plan(tier):
             for depth in (1, 2):
                 ty = name if name in ("list_schema",) else None
                 tspec = kind_spec(ty, fspec, const, ckind, dkind, "ip.%s" % name)
+                top = wrap("t", tspec, depth)
+                if dkind == "const":
+                    top["check_default"] = [["t", "a.t"][depth - 1]]
                 plans.append({"label": "inplace:%s/%s/d%d" % (name, dkind, depth), "wit": "inplace:%s/%s" % (name, dkind),
-                              "top": wrap("t", tspec, depth), "depth": depth,
-                              "alpha": ("inplace", ["t", "a.t"][depth - 1], muts, ok, bad)})
+                              "top": top, "depth": depth, "alpha": ("inplace", ["t", "a.t"][depth - 1], muts, ok, bad)})
+    for name, fspec, const, muts, ok, bad in EMPTY:
+        for depth in (1, 2):
+            ty = "list_schema" if name.startswith("list<schema>") else None
+            top = wrap("t", kind_spec(ty, fspec, const, None, "const", None), depth)
+            top["check_default"] = [["t", "a.t"][depth - 1]]
+            plans.append({"label": "empty:%s/d%d" % (name, depth), "wit": "empty-constant-default:%s" % name, "slash": True,
+                          "top": top, "depth": depth, "alpha": ("inplace", ["t", "a.t"][depth - 1], muts, ok, bad)})
     for name, sspec in SUBKINDS:
         for depth in (1, 2):
             top = wrap("t", dict(sspec), depth)
@@ -702,14 +741,19 @@ def _selected(plan, n_ops, tier):
     kind = plan["alpha"][0]
     if kind == "kind":
         if tier == "quick":
-            if plan["depth"] == 1:
+            absent = "/absent/" in plan["label"]
+            if plan["depth"] == 1 and not absent:
                 yield from _sequences(n_ops, 3)
+            elif plan["depth"] == 1:
+                yield from _sequences(n_ops, 2)
+                yield from (s for s in _red(3) if len(s) == 3)
             elif plan["depth"] == 2:
                 yield from _sequences(n_ops, 2)
             else:
                 yield from _sequences(n_ops, 1)
                 yield from (s for s in _red(3) if len(s) >= 2)
-                yield from itertools.product(_REDUCED[:4], repeat=4)
+                if not absent:
+                    yield from itertools.product(_REDUCED[:4], repeat=4)
         else:
             yield from _sequences(n_ops, 3)
             yield from (s for s in _red(4) if len(s) == 4)
@@ -718,7 +762,8 @@ def _selected(plan, n_ops, tier):
     elif kind == "inplace":
         if plan["depth"] == 1 or tier != "quick":
             yield from _sequences(n_ops, 3)
-            yield from itertools.product([0, 2, 3, 4], repeat=4)
+            if n_ops == 8 and ("/const/" in plan["label"] or tier != "quick"):  # length 4 over {mutate, reset, fresh, set}
+                yield from itertools.product([0, 2, 3, 4], repeat=4)
         else:
             yield from _sequences(n_ops, 2)
     else:
@@ -742,9 +787,11 @@ def rac(tier, seed):
              "(flat list/dict typed+untyped, list of Schema, constant defaults with nested mutable values: list of "
              "dict/list, dict of list/dict, typed with pass-through or typed inner fields) over an 8-letter alphabet {2 "
              "in-place mutations of the held value, reset, FRESH configuration, set, rejected set, set witness, "
-             "load_tree}; reference model compared after the last op (prefix closed); distinct = (schema, op sequence)",
-        bound="quick: depth 1 all sequences <= 3; depth 2 <= 2; depth 3 <= 1 plus all sequences of length 2..3 over the "
-              "5-letter sub-alphabet {set, rejected set, reset, load_tree, set witness} and all of length 4 over its "
+             "load_tree}, and the same histories for 13 EMPTY / FALSY constant defaults ({} / [] / () on "
+             "plain and typed DictField / ListField, list of Schema, 0 / 0.0 / '' / False on scalars) where also "
+             "field.default itself must stay as declared; reference model compared after the last op (prefix closed); distinct = (schema, op sequence)",
+        bound="quick: depth 1 all sequences <= 3 (absent defaults: all <= 2 + length 3 over the 5-letter sub-alphabet); depth 2 <= 2; depth 3 <= 1 plus all sequences of length 2..3 over the "
+              "5-letter sub-alphabet {set, rejected set, reset, load_tree, set witness} and (constant / callable defaults) all of length 4 over its "
               "first 4 letters; sub-config kinds <= 3; in-place kinds depth 1: <= 3 + "
               "length 4 over {mutate, reset, fresh, set}, depth 2: <= 2; mixed "
               "schema <= 2 per format (<= 3 for json); thorough: all <= 3 everywhere + length 4 reduced + seeded random length 5-6",
@@ -789,7 +836,8 @@ def _evaluate(rec, bt, plan, alphabet, seq, failed):
     if status != "fail":
         bt.history.append(ops)
         return bt
-    failed.add(seq)
+    if info[0] != "field-default":  # keep evaluating extensions: fresh / reset after the mutation have their own clauses
+        failed.add(seq)
     # confirm on a pristine materialisation of the schema: the replay must be self-contained
     fresh = Built(plan["top"], bt.tmp, populate=False)
     status2, info2 = run_sequence(fresh, plan["top"], ops)
@@ -803,10 +851,15 @@ def _evaluate(rec, bt, plan, alphabet, seq, failed):
     obligation = OBLIGATION[last]
     if aspect == "frame" or (last == "reset" and aspect.endswith("other-field")):
         obligation = "support:reset_value/frame:C12.touches-no-other-field"
+    if aspect == "field-default":
+        obligation = "core:Field.default/frame:C12.declared-default-unchanged"
+    witness = "%s:%s:%s" % (plan["wit"], last or "fresh", aspect)
+    if plan.get("slash"):
+        witness = "%s/%s" % (plan["wit"], "field.default" if aspect == "field-default" else _OPNAME[last])
     rec.violation(obligation=obligation,
                   what="[%s] after %s%s: %s" % (plan["label"], [o["op"] for o in ops],
                                                 " (and %d earlier sequences on the same schema object)" % len(history) if history else "", msg),
-                  witness_key="%s:%s:%s%s" % (plan["wit"], last or "fresh", aspect, ":history-dependent" if history else ""),
+                  witness_key=witness + (":history-dependent" if history else ""),
                   replay=json.loads(json.dumps({"driver": PID, "label": plan["label"], "spec": plan["top"], "ops": ops,
                                                 "history": history})))
     return Built(plan["top"], bt.tmp, populate=False)  # never carry a possibly contaminated schema on
